@@ -947,6 +947,14 @@ def extra_inputs(kind: str, name: str, seed: int) -> dict:
             w = (torch.randint(1, 5, shape, generator=g).float()) if i % 2 == 0 else [2.0, 3][i // 2]
             ups.append((x, y, w))
         return {"ups": ups}
+    if kind == "big-dup":
+        # an evaluation set large enough that #positives x #negatives of a one-vs-rest problem passes 2^31 once it is duplicated
+        # (50 000 samples, one class holding half): integer products / cumulative counts in a narrow dtype wrap only here
+        n, C = 50_000, 3
+        x = torch.rand(n, C, generator=g)
+        tgt = torch.where(torch.rand(n, generator=g) < 0.5, torch.zeros(n, dtype=torch.int64), torch.randint(1, C, (n,), generator=g))
+        x[torch.arange(n), tgt] += 0.4
+        return {"x": x, "tgt": tgt}
     raise ValueError(kind)
 
 
@@ -970,6 +978,17 @@ def extra_verdict(kind: str, name: str, inp: dict) -> tuple[bool, str]:
         a, b = fns[name](x), fns[name](z)
         ok = torch.equal(a.to(torch.float64), b.to(torch.float64))
         return ok, f"{name} on float64 scores 0.5 + j·2^-40 gives {a.reshape(-1)[:6].tolist()}…, on their zoom (x−0.5)·2^30 {b.reshape(-1)[:6].tolist()}… (mean {float(a.double().mean()):.6f} vs {float(b.double().mean()):.6f})"
+    if kind == "big-dup":
+        x, tgt = inp["x"], inp["tgt"]
+        y01 = (tgt == 0).long()
+        fns = {"multiclass_auroc": lambda s, t: F.multiclass_auroc(s, t, num_classes=3, average=None),
+               "multiclass_auprc": lambda s, t: F.multiclass_auprc(s, t, num_classes=3, average=None),
+               "binary_auroc": lambda s, t: F.binary_auroc(s[:, 0], (t == 0).long()),
+               "binary_auprc": lambda s, t: F.binary_auprc(s[:, 0], (t == 0).long())}
+        a = fns[name](x, tgt).double()
+        b = fns[name](torch.cat([x, x]), torch.cat([tgt, tgt])).double()
+        ok = bool(torch.allclose(a, b, rtol=1e-5, atol=1e-6))
+        return ok, f"{name} on 50 000 samples gives {a.reshape(-1).tolist()}, on the same set taken twice {b.reshape(-1).tolist()}"
     if kind == "mixed-weight-scale":
         T = 2 if name.endswith("[tasks=2]") else 1
         base = name.split("[")[0]
@@ -1021,12 +1040,13 @@ def extra_inputs_from_json(j: dict) -> dict:
 
 
 EXTRA = ([("fine-scale", n) for n in ("hit_rate", "reciprocal_rank", "HitRate", "ReciprocalRank", "multiclass_accuracy[k=3]", "binary_auroc", "binary_auprc", "retrieval_precision")]
+         + [("big-dup", n) for n in ("multiclass_auroc", "multiclass_auprc", "binary_auroc", "binary_auprc")]
          + [("mixed-weight-scale", n) for n in ("WeightedCalibration", "WeightedCalibration[tasks=2]", "WindowedWeightedCalibration", "ClickThroughRate", "ClickThroughRate[tasks=2]", "WindowedClickThroughRate")])
 
 
 def extra_streams(rep: Report):
     for kind, name in EXTRA:
-        for r in range(2 if rep.tier == "quick" else 8):
+        for r in range((2 if rep.tier == "quick" else 8) if kind != "big-dup" else 1):
             seed = rep.seed * 7919 + 31 * r + 5
             try:
                 inp = extra_inputs(kind, name, seed)
@@ -1038,7 +1058,8 @@ def extra_streams(rep: Report):
             rep.count(f"extra:{kind}")
             if not ok:
                 rep.violation(f"C17|{name}|{kind}|relation-broken", what,
-                              {"kind": "extra-case", "case": {"extra": kind, "name": name, "seed": seed}, "inputs": extra_inputs_json(inp)})
+                              {"kind": "extra-case", "case": {"extra": kind, "name": name, "seed": seed},
+                               "inputs": extra_inputs_json(inp) if kind != "big-dup" else None})     # big-dup: regenerated from the seed
                 break
 
 def run(rep: Report):
